@@ -74,11 +74,43 @@ fn cut_lines_forward_only<A: BufRead, B: Write>(
         }
     }
 
-    // Output is finished. Did we output every bound?
-    if let Some(BoundOrFiller::Bound(b)) = opt.bounds.get(bounds_idx) {
-        if b.r != Side::Continue {
-            // not good, we still have bounds to print but the input is exhausted
-            bail!("Out of bounds: {}", b);
+    // The input is exhausted. Did we output every bound?
+    if add_newline_next {
+        // The pending bound printed some lines already: it is complete
+        // only if it had no right limit.
+        if let Some(BoundOrFiller::Bound(b)) = opt.bounds.get(bounds_idx) {
+            if b.r != Side::Continue {
+                bail!("Out of bounds: {}", b);
+            }
+        }
+
+        bounds_idx += 1;
+
+        if opt.join && bounds_idx != opt.bounds.len() {
+            stdout.write_all(&[opt.eol as u8])?;
+        }
+    }
+
+    // Any other bound left starts after the last line: fallback, or failure
+    while bounds_idx < opt.bounds.len() {
+        let output = match opt.bounds.get(bounds_idx).unwrap() {
+            BoundOrFiller::Filler(f) => f,
+            BoundOrFiller::Bound(b) => {
+                if let Some(fallback) = b.fallback_oob.as_ref() {
+                    fallback
+                } else if let Some(generic_fallback) = opt.fallback_oob.as_ref() {
+                    generic_fallback
+                } else {
+                    bail!("Out of bounds: {}", b);
+                }
+            }
+        };
+
+        stdout.write_all(output)?;
+        bounds_idx += 1;
+
+        if opt.join && bounds_idx != opt.bounds.len() {
+            stdout.write_all(&[opt.eol as u8])?;
         }
     }
 
@@ -117,8 +149,22 @@ pub fn read_and_cut_lines<A: BufRead, B: Write>(
     // If bounds cut from left to right and do not internally overlap
     // (e.g. 1:2,2,4:5,8) then we can use a streaming algorithm and avoid
     // allocating everything in memory.
-    let can_be_streamed =
-        { !opt.complement && !opt.compress_delimiter && opt.bounds.is_forward_only() };
+    // A closed range with a fallback must be buffered too: the streaming
+    // algorithm would have printed its first lines by the time it finds out
+    // that the range ends after the last line.
+    let has_range_with_fallback = opt.bounds.iter().any(|bof| {
+        matches!(bof, BoundOrFiller::Bound(b)
+            if b.l != b.r
+                && b.r != Side::Continue
+                && (b.fallback_oob.is_some() || opt.fallback_oob.is_some()))
+    });
+
+    let can_be_streamed = {
+        !opt.complement
+            && !opt.compress_delimiter
+            && opt.bounds.is_forward_only()
+            && !has_range_with_fallback
+    };
 
     if can_be_streamed {
         cut_lines_forward_only(stdin, stdout, opt)?;
